@@ -329,7 +329,8 @@ def _tr_shards(tier):
 
 HARNESSES = [
     H(transparent, shards=_tr_shards, timeout={"quick": 100, "thorough": 1500}),
-    H(wire_recv, shards=lambda tier: [("len(w) <= 2",)] + [("len(w) == %d" % n,) for n in range(3, BOUNDS[tier]["w"] + 1)],
+    H(wire_recv, shards=lambda tier: [("len(w) <= 2",)] + [("len(w) == %d" % n,) for n in range(3, min(4, BOUNDS[tier]["w"]) + 1)]
+      + [("len(w) == %d" % n, "split == %d" % k) for n in range(5, BOUNDS[tier]["w"] + 1) for k in range(n + 1)],
       timeout={"quick": 100, "thorough": 1500}),
 ]
 
